@@ -40,6 +40,32 @@ CHECKS = {
              "In the replay every evaluation runs in its own process and a different process then calls dds.load for every "
              "path the spec says is committed (kept now or earlier); the loaded value must equal the spec's served value.",
         design_ref="DESIGN.md 5 C04"),
+    "C08": dict(
+        engine="tlc-design+tlc-generate+tlc-trace",
+        technique="TLA+ spec StoreModel (dictionary store with path identity = segment sequence) model-checked by TLC over its "
+                  "full state graph; TLC-generated operation sequences replayed on Memory/Local/LRU stores; recorded random "
+                  "executions (dotted, unicode, concatenation-ambiguous paths) validated by TLC against StoreTrace",
+        text="TLC explores the complete state graph of the abstract store (3 keys, 3 paths, unbounded operation sequences) with "
+             "BlobRoundTrip/PathRoundTrip; all sequences of length <= 3 plus simulated length-14 behaviours are replayed on "
+             "MemoryStore, LocalFileStore and their cache-wrapped forms over three path sets (concatenation-ambiguous, 1-4 "
+             "segments, spaces/unicode/dot-names), every answer compared with the model; random executions with '.'/'..' "
+             "paths are recorded (answers + whether every created entry lies inside data_dir) and judged by TLC (StoreTrace).",
+        design_ref="DESIGN.md 5 C08, 2.4, 3.4",
+        note="Trusted: TLC; the driver's projection of real answers into the model vocabulary; directory snapshots for the "
+             "'inside data_dir' observation. Content-addressed use (a key always stores the same value); no prefix-conflicting "
+             "paths. DBFS(fake) is covered by C19."),
+    "C12": dict(
+        engine="tlc-design+tlc-generate",
+        technique="TLA+ spec StoreModel with the LRU layer transcribed from dds/_lru_store.py: TLC checks Invisible/Bounded/"
+                  "CacheCoherent on the full state graph per capacity; generated behaviours replayed in lock step on "
+                  "LRUCacheStore(x) and bare x with weak-reference retention counts",
+        text="TLC checks that the cache layer's answers equal the bare store's in every reachable state for capacities 1,2,3 "
+             "(=unbounded for 3 keys; 10 in thorough) and that the entry list never exceeds the capacity; the same model with the "
+             "pinned tree's 'cache None of an absent key' rule must be rejected (non-vacuity). Exhaustive length-3 and simulated "
+             "length-14 behaviours are replayed in lock step on wrapped and bare Memory/Local stores: any differing answer, or "
+             "more than `cap` fetched objects alive after gc, is a violation; cache_objects decoding is probed behaviourally.",
+        design_ref="DESIGN.md 5 C12, 2.4",
+        note="Trusted: TLC; weak references + gc.collect() as the measure of retained objects; content-addressed use."),
 }
 
 NOT_YET = "check not built yet (build in progress, see DESIGN.md section 9)"
